@@ -260,3 +260,10 @@ def family_undiscounted(tier='quick'):
     F.append(Skel('u2-plain', ['s', 'g'], {'s': ('a', 'b'), 'g': ('a',)},
                   {('s', 'a'): ('s', 'g'), ('s', 'b'): ('g',), ('g', 'a'): ('g',)}, absorbing=['g'], init=['s']))
     return F
+
+
+def _dc(c):
+    """truth value of a clause on this path (forks in symbolic mode)"""
+    if S.symbolic():
+        return bool(S.mk_bool(c.exact))
+    return bool(c.concrete)
